@@ -332,4 +332,98 @@ theorem wloopOf_mem_wcontOf (s : Store) (h : CH) (l : LH) (hc : s.db.hasContaine
     unfold wloopsOf; rw [hls]; exact List.mem_map.mpr ⟨l, hl, rfl⟩
   cases fuel <;> exact this
 
+-- ---- handles, and the states the storing routes leave ---------------------------------------------------------------------------------------------
+
+/-- `l` is a valid handle of the loop of container `cid` that contains item `k` -/
+def HandleFor (d : Db) (l : LH) (cid : Nat) (k : Str) : Prop :=
+  l.validB d = true ∧ l.cid = cid ∧ (d.loopItems cid l.loopNum).any (fun i => i.name == k) = true
+
+/-- what GET_ITEM_LOOP_SQL found when cif_container_get_item_loop succeeds: the loop row, and the item in it -/
+theorem itemLoop_rows (d : Db) (cid : Nat) (k : Str) (l : LH) (h : getItemLoopInternal d cid k = .ok l) :
+    ∃ x ∈ d.loops, x.cid = cid ∧ l = { cid := cid, loopNum := x.loopNum, category := x.category } ∧
+      ∃ i ∈ d.loopItems cid x.loopNum, i.name = k := by
+  unfold getItemLoopInternal at h
+  cases hr : itemLoopRows d cid k with
+  | nil => simp [hr] at h
+  | cons x rest =>
+    cases rest with
+    | cons y ys => simp [hr] at h
+    | nil =>
+      simp only [hr, Except.ok.injEq] at h
+      have hm : x ∈ itemLoopRows d cid k := by rw [hr]; exact List.mem_cons_self
+      simp only [itemLoopRows, List.mem_filter, Bool.and_eq_true, List.any_eq_true, beq_iff_eq] at hm
+      obtain ⟨hx, hxc, i, hi, ⟨hic, hin⟩, hil⟩ := hm
+      refine ⟨x, hx, hxc, h.symm, i, ?_, hin⟩
+      simp only [Db.loopItems, List.mem_filter, Bool.and_eq_true, beq_iff_eq]
+      exact ⟨hi, hic, hil⟩
+
+/-- the handle cif_container_get_item_loop hands out is a valid handle of the item's loop -/
+theorem handleFor_of_itemLoop (d : Db) (hinv : Inv d) (cid : Nat) (k : Str) (l : LH) (h : getItemLoopInternal d cid k = .ok l) :
+    HandleFor d l cid k := by
+  obtain ⟨x, hx, hxc, rfl, i, hi, hik⟩ := itemLoop_rows d cid k l h
+  refine ⟨?_, rfl, List.any_eq_true.mpr ⟨i, hi, by simp [hik]⟩⟩
+  unfold LH.validB
+  have := find_loop_of_mem d hinv x hx
+  rw [hxc] at this
+  simp only [this]
+  simp
+
+/-- the state a storing call leaves, as far as the read paths care: it satisfies the store invariants, no transaction is open, and the
+    cell (container, item, row) holds `v` -/
+structure Stored (s : Store) (cid : Nat) (k : Str) (row : Nat) (v : V) : Prop where
+  good : GoodS s
+  ac : s.autocommit = true
+  cell : s.db.cell cid k row = some v
+
+theorem GoodS.invS {s : Store} (h : GoodS s) : InvS s :=
+  ⟨h.db.inv, fun d hd => (h.txn d hd).inv, fun d hd => (h.saves d hd).inv, h.txwf⟩
+
+/-- cif_pktitr_close inside the iterator's transaction: CIF_OK, the content stays, autocommit again -/
+theorem closeIter_in_txn (s : Store) (d0 : Db) (ht : s.txn = some d0) :
+    closeIter s = ({ db := s.db, txn := none, saves := [] }, .ok ()) := by
+  simp [closeIter, Store.commit, autocommit_of_txn s d0 ht]
+
+/-- **iteration**: in such a state, through any valid handle of the item's loop, the iterator delivers `v` as item `k` of the packet
+    of `row` -/
+theorem Stored.iter {s : Store} {cid : Nat} {k : Str} {row : Nat} {v : V} (h : Stored s cid k row v) (l : LH)
+    (hl : HandleFor s.db l cid k) :
+    ∃ ps, readLoop s l (readFuel s) = .ok (ps, some CIF_FINISHED) ∧ ps.length = (s.db.loopRows l.cid l.loopNum).length ∧
+      ∃ (j : Nat) (p : List (Str × V)), (s.db.loopRows l.cid l.loopNum)[j]? = some row ∧ ps[j]? = some p ∧ pktGet p k = some v ∧
+        p.map (·.1) = (s.db.loopItems l.cid l.loopNum).map (·.name) := by
+  obtain ⟨hv, hc, hk⟩ := hl
+  subst hc
+  exact readLoop_cell s h.good.db h.ac l hv k row v hk h.cell
+
+theorem storedPacket_mem (d : Db) (cid ln row : Nat) (k : Str) (v : V) (hk : (d.loopItems cid ln).any (fun i => i.name == k) = true)
+    (hc : d.cell cid k row = some v) : (k, v) ∈ storedPacket d cid ln row := by
+  obtain ⟨i, hi, hik⟩ := List.any_eq_true.mp hk
+  have hik' : i.name = k := by simpa using hik
+  refine List.mem_map.mpr ⟨i, hi, ?_⟩
+  rw [hik', cellK_of_cell d cid k row v hc]
+
+/-- **cif_walk**: in such a state, wherever the item's container `hC` sits in the tree the walker builds (block `B` of `wcifOf s`, `hC`'s
+    node in or below it), a walk whose handlers always continue calls the item handler with (k, v) — provided the CIF has no
+    packet-less loop (cif_walk stops with CIF_EMPTY_LOOP at such a loop) -/
+theorem Stored.walk {s : Store} {cid : Nat} {k : Str} {row : Nat} {v : V} (h : Stored s cid k row v) (l : LH)
+    (hl : HandleFor s.db l cid k) (B : WCont) (hB : B ∈ wcifOf s) (fuel : Nat) (hC : CH) (hid : hC.id = cid)
+    (hin : InCont (wcontOf s fuel hC) B) (hne : noEmptyLoops (wcifOf s) = true) :
+    Ev.item k v ∈ (walkStore allCont s).1 ∧ (walkStore allCont s).2 = OK := by
+  obtain ⟨hv, hc, hk⟩ := hl
+  subst hc
+  obtain ⟨w, hw, hwc, hwn, hwr, _⟩ := Codec.mem_of_cell s.db l.cid k row v h.cell
+  have hrow : row ∈ s.db.loopRows l.cid l.loopNum := (mem_loopRows_iff _ _ _ _).mpr ⟨w, hw, hwc, by rw [hwn]; exact hk, hwr⟩
+  have hrows : s.db.loopRows l.cid l.loopNum ≠ [] := List.ne_nil_of_mem hrow
+  obtain ⟨x, hx, k1, _, _⟩ := LH.valid_of_validB hv
+  have hcont : s.db.hasContainer hC.id = true := by rw [hid, ← k1]; exact h.good.db.inv.loopFK x hx
+  have hL := wloopOf_mem_wcontOf s hC l hcont hv hid.symm fuel
+  have hpk : storedPacket s.db l.cid l.loopNum row ∈ (wloopOf s l).packets := by
+    rw [wloopOf_packets s h.good.db h.ac l hv hrows]
+    exact List.mem_map.mpr ⟨row, hrow, rfl⟩
+  exact walk_delivers_item (wcifOf s) hne B _ hB hin _ hL _ hpk k v (storedPacket_mem _ _ _ _ k v hk h.cell)
+
+/-- a data block's node is a block of the tree the walker builds -/
+theorem wcontOf_block_mem (s : Store) (hB : CH) (bs : List CH) (hbs : (allBlocks s).2 = .ok bs) (hm : hB ∈ bs) :
+    wcontOf s (s.db.frames.length + 1) hB ∈ wcifOf s := by
+  unfold wcifOf; rw [hbs]; exact List.mem_map.mpr ⟨hB, hm, rfl⟩
+
 end CifModel.Store
